@@ -430,3 +430,54 @@ Example C17_ex_csv_lenient :
   csv_rows [97; 34; 98; 44; 34; 99; 34; 100; 13; 120; 10; 34; 101; 102]
   = Ok [[[97; 34; 98]; [99; 100]]; [[120]]; [[101; 102]]].
 Proof. vm_compute. reflexivity. Qed.
+
+(* ---- arguments rendered per row (`dataset: words_${{lang}}.csv`, `table: ${{...}}`).
+   evaluate_memorable_function keeps the state of an unnamed call per call site AND rendered
+   arguments ([args_run]).  For every run — any number of call sites and argument tuples, their
+   evaluations interleaved in any way — in which the rendered arguments determine the dataset
+   ([dsof]) and the datasets named are non-empty, read by Dataset.iterate with repeat on: the run
+   does not fail, and its i-th evaluation receives record (j mod n) of the dataset ITS arguments
+   name, j = the number of earlier evaluations of the same call site with the same arguments —
+   never a record of a dataset that some other row named. *)
+Theorem C17_args_key_mod_n :
+  forall (R : Type) (dsof : nat -> nat -> dsref R) (calls : list (acall R)) (orc : list Z),
+    (forall c, In c calls ->
+       c_ds R c = dsof (c_site R c) (c_args R c) /\
+       d_mode R (c_ds R c) = Linear /\ d_repeat R (c_ds R c) = true /\ d_data R (c_ds R c) <> []) ->
+    exists xs, args_run R calls [] orc = (xs, None) /\ length xs = length calls /\
+      forall i c, nth_error calls i = Some c ->
+        nth_error xs i = nth_error (d_data R (c_ds R c))
+                                   (prior R (c_key R c) (firstn i calls) mod length (d_data R (c_ds R c))).
+Proof. exact args_key_mod_n. Qed.
+Print Assumptions C17_args_key_mod_n.
+
+(* non-vacuity: one call site alternating between an English (n = 3) and a French (n = 2) file,
+   and a second call site on the French file *)
+Definition args_en : dsref Z := mkDs [1; 2; 3] Linear true None.
+Definition args_fr : dsref Z := mkDs [10; 20] Linear true None.
+Definition args_witness : list (acall Z) :=
+  [mkCall 1%nat 0%nat args_en; mkCall 1%nat 1%nat args_fr; mkCall 1%nat 0%nat args_en;
+   mkCall 2%nat 1%nat args_fr; mkCall 1%nat 1%nat args_fr; mkCall 1%nat 0%nat args_en;
+   mkCall 1%nat 1%nat args_fr; mkCall 1%nat 0%nat args_en].
+
+Example C17_ex_args_trace :
+  args_run Z args_witness [] [] = ([1; 10; 2; 10; 20; 3; 10; 1], None).
+Proof. vm_compute. reflexivity. Qed.
+
+Example C17_ex_args_hyps :
+  forall c, In c args_witness ->
+    c_ds Z c = (fun _ a => if Nat.eqb a 0 then args_en else args_fr) (c_site Z c) (c_args Z c) /\
+    d_mode Z (c_ds Z c) = Linear /\ d_repeat Z (c_ds Z c) = true /\ d_data Z (c_ds Z c) <> [].
+Proof.
+  intros c H. cbn [args_witness In] in H.
+  repeat (destruct H as [H|H]; [subst c; vm_compute; repeat split; discriminate|]). contradiction.
+Qed.
+
+(* a non-repeating dataset named by some of the rows is used up by THOSE rows only: the third row
+   that names the French file fails, whatever the rows naming the English file did in between *)
+Example C17_ex_args_norepeat :
+  args_run Z [mkCall 1%nat 1%nat (mkDs [10; 20] Linear false None); mkCall 1%nat 0%nat args_en;
+              mkCall 1%nat 1%nat (mkDs [10; 20] Linear false None); mkCall 1%nat 0%nat args_en;
+              mkCall 1%nat 1%nat (mkDs [10; 20] Linear false None)] [] []
+  = ([10; 1; 20; 2], Some (DGE "Could not generate enough values to create rows")).
+Proof. vm_compute. reflexivity. Qed.
